@@ -15,7 +15,7 @@ RULE = ("case = up to 4 producer maps (LocalNode TPDOs) and 4 consumer maps (Rem
         "foreign frame / remote request / subscribe / reconfigure / add callback / start-stop / read / state operations; "
         "non-trivial = at least one transmit that reaches a subscribed consumer whose layout has an unaligned or sub-byte field; "
         "plus (oracle only) waits for reception served by a second thread")
-CASE_TIMEOUT = 30     # a dispatch that blocks (e.g. on a lock a callback needs) becomes an observation, not a hang
+CASE_TIMEOUT = 10     # a dispatch that blocks (e.g. on a lock a callback needs) becomes an observation, not a hang
 TRUSTED = ["modelled, not verified: threading.Condition in wait_for_reception (exercised with a real second thread, oracle only); python-can Message"]
 ASSUMPTIONS = ["the bus delivers a transmitted frame to the subscribers of its CAN id with the timestamp the bus assigns (integers injected by the harness)"]
 
